@@ -5,6 +5,7 @@ import json
 
 from pydiffx.errors import (DiffXContentError,
                             DiffXOptionValueChoiceError,
+                            DiffXOptionValueError,
                             DiffXSectionOrderError)
 from pydiffx.options import (DiffType,
                              LineEndings,
@@ -198,6 +199,14 @@ class DiffXWriter(object):
                 option='mimetype',
                 value=mimetype,
                 choices=PreambleMimeType.VALID_VALUES)
+
+        if (indent is not None and
+            (isinstance(indent, bool) or
+             not isinstance(indent, int) or
+             indent < 0)):
+            raise DiffXOptionValueError(
+                'indent must be a non-negative integer or None, not %r'
+                % (indent,))
 
         self._new_content_section(section_name='preamble',
                                   content=text,
